@@ -30,7 +30,7 @@ from ref import ws_frames as F
 LIFETIME = 7.0          # virtual seconds a joined session lives before its scripted end
 CONNECT_OUTCOMES = ("refused", "hs_reject", "hs_drop", "abort", "lost", "goodbye", "leave",
                     "main_returns", "main_raises")
-PHASES = ("idle", "connecting", "connected", "handshaked", "joined")
+PHASES = ("started", "idle", "connecting", "connected", "handshaked", "joined")
 
 
 def fwname():
@@ -63,7 +63,11 @@ def _install_once():
     if _state["jitter"] is None:
         _state["jitter"] = _Jitter()
         WC.random = _state["jitter"]
-    if _state["spy"] is None:
+    if fwname() == "tx":
+        import autobahn.twisted.component  # noqa  (module import re-selects the txaio framework)
+    else:
+        import autobahn.asyncio.component  # noqa
+    if getattr(txaio.resolve, "_c14_spy", False) is False:
         # observation only: who completes the future returned by start()
         orig_resolve, orig_reject = txaio.resolve, txaio.reject
 
@@ -78,11 +82,20 @@ def _install_once():
             if r is not None:
                 r._spy("reject", f)
             return orig_reject(f, *a, **k)
+        resolve._c14_spy = True
+        reject._c14_spy = True
         txaio.resolve = resolve
         txaio.reject = reject
-        _state["spy"] = True
+    if not _state.get("gc"):
+        # cyclic garbage is collected at the end of every execution only (unhandled errors of
+        # Deferreds / Futures are reported from __del__: attribute them to the right execution)
+        import gc
+        gc.collect()
+        gc.freeze()
+        gc.disable()
+        _state["gc"] = True
     if fwname() == "tx" and _state["logobs"] is None:
-        from twisted.logger import globalLogPublisher
+        from twisted.logger import globalLogPublisher, globalLogBeginner
 
         def obs(event):
             r = _state["run"]
@@ -93,7 +106,10 @@ def _install_once():
                 r.logged.append("%s: %s" % (
                     getattr(getattr(f, "type", None), "__name__", "log"),
                     str(getattr(f, "value", event.get("log_format")))[:200]))
-        globalLogPublisher.addObserver(obs)
+        try:
+            globalLogBeginner.beginLoggingTo([obs], discardBuffer=True, redirectStandardIO=False)
+        except Exception:  # noqa  (already begun)
+            globalLogPublisher.addObserver(obs)
         _state["logobs"] = obs
 
 
@@ -351,7 +367,7 @@ class Link:
     def end_of_life(self):
         """scripted end of a joined session, LIFETIME after the join"""
         out = self.att.outcome
-        if not self.alive() or self.goodbye_sent or self.att.superseded:
+        if not self.alive() or self.goodbye_sent:
             return
         self.att.eol_at = self.run.env.now()
         if out == "lost":
@@ -385,7 +401,6 @@ class Attempt:
         self.joined_at = None
         self.eol_at = None
         self.t_end = None
-        self.superseded = False
         self.main_f = None
         self.request = None
 
@@ -541,7 +556,7 @@ class Run:
         if exc is None:
             txaio.resolve(att.main_f, None)
         else:
-            txaio.reject(att.main_f, txaio.create_failure(exc) if fwname() != "tx" else exc)
+            txaio.reject(att.main_f, exc)
 
     # -- observation hooks
     def _spy(self, kind, f):
@@ -555,14 +570,12 @@ class Run:
 
     def phase(self, name, att):
         """a point at which the application may call stop()"""
-        if self.stopped is not None or self.choose_stop is None:
+        if self.stopped is not None or self.choose_stop is None or self.done:
             return
         n = att.n if att is not None else len(self.attempts)
         self.stop_points.append((name, n))
         if self.choose_stop(name, n):
             self.stopped = (name, n, self.env.now())
-            if att is not None:
-                att.superseded = True
             try:
                 self.stop_result = type(self.comp.stop()).__name__
             except Exception as e:  # noqa
@@ -578,9 +591,10 @@ class Run:
             self.env.escapes.append(e)
             return
         txaio.add_callbacks(self.done_f,
-                            lambda r: self.done.append(("ok", self.env.now(), repr(r))),
+                            lambda r: self.done.append(("ok", self.env.now(), repr(r), len(self.attempts))),
                             lambda f: self.done.append(("err", self.env.now(), "%s: %s" % (
-                                type(f.value).__name__, str(f.value)[:120]))))
+                                type(f.value).__name__, str(f.value)[:120]), len(self.attempts))))
+        self.phase("started", None)
         self.env.settle()
 
     def _play(self, att):
@@ -645,8 +659,37 @@ class Run:
                     continue
             self.env.advance_to(nd)
             self.env.settle()
-        _state["run"] = None
+        self._obs = self._obs_now()
+        self._teardown()
         return self
+
+    def _teardown(self):
+        """drop every reference to the component's objects and collect them, so that errors
+        nobody handled (reported from __del__) are attributed to this execution"""
+        import gc
+        errs = self.env.loop.errors if fwname() != "tx" else None
+        n_err = len(errs) if errs is not None else 0
+        n_log = len(self.logged)
+        for a in self.attempts:
+            a.factory = a.waiter = a.conn = a.link = a.session = a.main_f = None
+        self.comp = self.done_f = None
+        self.sessions = []
+        self.pending = []
+        env = self.env
+        if fwname() == "tx":
+            for c in list(env.clock.getDelayedCalls()):
+                c.cancel()
+        else:
+            env.loop._ready.clear()
+            env.loop._scheduled.clear()
+        gc.collect()
+        late = list(self.logged[n_log:])
+        if errs is not None:
+            self.env.escapes  # noqa
+            late += ["%s: %s" % (type(c.get("exception")).__name__, str(c.get("message"))[:120])
+                     for c in errs[n_err:]]
+        self._obs["late_errors"] = late
+        _state["run"] = None
 
     # -- result
     def summary(self):
@@ -654,6 +697,9 @@ class Run:
                 "done": self.done, "stopped": self.stopped}
 
     def obs(self):
+        return self._obs
+
+    def _obs_now(self):
         esc = ["%s: %s" % (type(e).__name__, str(e)[:200]) for e in self.env.escapes]
         for a in self.attempts:
             if a.conn is not None:
